@@ -26,6 +26,7 @@ CONSTANTS
  NodeTeardown = FALSE
  MayVanish = FALSE
  SweepRelays = TRUE
+ E2E = FALSE
  Aead = TRUE
  CheckIdent = FALSE
  AutoTimers = TRUE
